@@ -295,7 +295,28 @@ func (c *FnCtx) freshVal(st *State, t types.Type, prefix string) Val {
 
 // allocRef creates a fresh non-nil reference that is not in the allocated set.
 func (c *FnCtx) allocRef(st *State, prefix string) string {
+	return c.allocRefT(st, prefix, nil)
+}
+
+// refTypeID is the run-time type tag of heap objects of struct type t ("" if t is not tagged).
+func (c *FnCtx) refTypeID(t types.Type) string {
+	if t == nil {
+		return ""
+	}
+	if _, ok := t.(*types.Named); ok && kindOf(t) == KStruct {
+		return c.typeID(t)
+	}
+	return ""
+}
+
+// allocRefT allocates an object of type t (nil: untyped storage such as maps, cells, rows).
+func (c *FnCtx) allocRefT(st *State, prefix string, t types.Type) string {
 	r := c.fresh(prefix, "Int")
+	if tid := c.refTypeID(t); tid != "" {
+		st.assume("(= (rtype " + r + ") " + tid + ")")
+	} else {
+		st.assume("(= (rtype " + r + ") 0)")
+	}
 	st.assume("(> " + r + " 0)")
 	st.assume(not(sel(st.alloc, r)))
 	na := c.fresh("alloc", "(Array Int Bool)")
@@ -310,6 +331,13 @@ func (c *FnCtx) assumeAllocated(st *State, v Val) {
 		isRef := leaf.K == KRef || strings.HasSuffix(path, "#base")
 		if isRef {
 			st.assume(or(eq(leaf.S, "0"), sel(st.alloc, leaf.S)))
+			if leaf.A == nil && leaf.K == KRef {
+				if pt, ok := leaf.T.Underlying().(*types.Pointer); ok {
+					if tid := c.refTypeID(pt.Elem()); tid != "" {
+						st.assume(or(eq(leaf.S, "0"), eq("(rtype "+leaf.S+")", tid)))
+					}
+				}
+			}
 		}
 	})
 }
